@@ -161,6 +161,10 @@ SEPS = [' ', '\n', ' /*a\u2028b\u2029*/ ', '\r\n', ' /*c*/ ', '  // x\n']
 def main(run, tier):
     from . import parsefwd
     parsefwd.add(run, tier, positions=True)
+    # what a token fragment records: the two token handlers (contracts/tokenhandlers.py)
+    from ..e1run import verify_functions as _vf
+    import contracts.tokenhandlers as _cth
+    _vf(run, _cth.build(importlib.import_module('calmjs.parse.handlers.core'), importlib.import_module('calmjs.parse.asttypes')), {}, {}, tier=tier)
     # positions are counted with the lexer's line-terminator patterns: their obligations (C06) are imported
     from . import c06 as _c06
     _c06.class_obligations(run, importlib.import_module('calmjs.parse.lexers.es5'))
